@@ -99,7 +99,7 @@ where
     let mut n = 0;
     let mut poly_0 = Complex::<N::RealField>::new(initial.0.real(), initial.0.imaginary());
     let mut poly_1 = Complex::<N::RealField>::new(initial.1.real(), initial.1.imaginary());
-    let mut poly_2 = Complex::<N::RealField>::new(initial.2.real(), initial.1.imaginary());
+    let mut poly_2 = Complex::<N::RealField>::new(initial.2.real(), initial.2.imaginary());
     let mut h_1 = poly_1 - poly_0;
     let mut h_2 = poly_2 - poly_1;
     let poly_1_evaluated = poly.evaluate(poly_1);
